@@ -25,6 +25,10 @@ process.stdin.on('end', function () {
   var results = req.map(function (r) {
     var src, dst;
     try { src = new proj4.Proj(r.src); dst = new proj4.Proj(r.dst); } catch (e) { return {error: String(e)}; }
+    if (r.fields) {
+      var f = function (p) { return {a: p.a, b: p.b, rf: p.rf, es: p.es, datum_params: p.datum_params ? Array.prototype.map.call(p.datum_params, function (v) { return parseFloat(v); }) : null, from_greenwich: p.from_greenwich === undefined ? null : p.from_greenwich, to_meter: p.to_meter === undefined ? null : p.to_meter}; };
+      return {points: [], fields: [f(src), f(dst)]};
+    }
     return {points: r.pts.map(function (p) {
       try {
         var q = proj4.transform(src, dst, {x: p[0], y: p[1]});
